@@ -9,7 +9,12 @@ distances; the exact convex hull (cyclic vertex sequence, area) of lattice point
 components of the pixel set; and the relation SimplifyOK(in, out, tol) together with a reference simplifier.
 TLC checks the internal consistency of these oracles on every enumerated case (RegionIsFill, DemandsConsistent,
 MiterIsSandwiched, MorphologyLaws, SharpSound, HullSound, ExtremeAgree, DecSound, SimpSound) and prints the
-cases; drive/xoff.cpp executes CrossSection::Offset / Hull / Decompose / Simplify and measures."""
+cases; drive/xoff.cpp executes CrossSection::Offset / Hull / Decompose / Simplify and measures.
+Corner-angle family (Xoff.tla, "corner angles"): 38 simple integer polygons whose corners TLC classifies exactly
+(convex / reflex x below 30, 30..90, above 90 degrees, collinear; CornerSound, CornerCoverage), placed by Pythagorean
+rotations / mirror as a solid and as a hole, offset by both signs of delta with 3..64 (and the default) segments; the
+rule (closer than |delta| cos(pi/n) => in the dilation, farther than |delta| => not) is the specification's, the driver
+measures the distance of probe points on rays around every corner and beside every edge to the input polygon."""
 import json, os, time, threading, re
 import vf
 
@@ -26,6 +31,10 @@ def case_text(c):
     if k in ('off', 'dec'):
         s = 'Region(add=%s%s%s)' % (c['add'], ' sub=%s' % c['sub'] if c['sub'] else '', (' island=%s' % c['isl'] if c.get('isl') else '') + (' hole2=%s' % c['sub2'] if c.get('sub2') else ''))
         return ('Offset of ' if k == 'off' else 'Decompose of ') + s.replace(' ', '')
+    if k == 'corner':
+        return 'Offset of %s[%s] rotated by (%d,%d)/%d%s%s' % (
+            c['name'], ' '.join('%d,%d' % tuple(v) for v in c['c']), c['rot'][0], c['rot'][1], c['rot'][2],
+            ' mirrored' if c['mirror'] else '', ' as a hole in a box' if c['hole'] else '')
     if k == 'sharp':
         return 'Offset of polygon[' + ' '.join('%g,%g' % (v[0] / 2.0, v[1] / 2.0) for v in c['c']) + ']'
     if k == 'hull':
@@ -101,12 +110,15 @@ def sig_of(c, f):
     d = f['detail']
     tag = classify(c, f)
     par = '%s/ml%s/n%s/d%s' % (d.get('jt', ''), d.get('miterLimit', ''), d.get('segments', ''), d.get('delta', d.get('d1', '')))
-    return '%s|%s|%s|%s|%s' % (f['kind'], tag or d.get('why', ''), d.get('via', ''), par if 'jt' in d else '', case_text(c))
+    via = d.get('via', '')
+    if isinstance(via, list):
+        via = ','.join(via)
+    return '%s|%s|%s|%s|%s' % (f['kind'], tag or d.get('why', ''), via, par if 'jt' in d else '', case_text(c))
 
 
 class Tally:
     def __init__(self):
-        self.n = self.nontrivial = self.evals = 0
+        self.n = self.nontrivial = self.evals = self.probes = 0
         self.kinds = {}
         self.foreign = {}
 
@@ -152,6 +164,7 @@ def run_cases(chk, tally, cases, tag, jobs=12, variant='seq', timeout=3000, per_
         tally.kinds[c['kind']] = tally.kinds.get(c['kind'], 0) + 1
         tally.nontrivial += 1 if r.get('nontrivial', 0) > 0 else 0
         tally.evals += r.get('evals', 0)
+        tally.probes += r.get('probes', 0)
         own = [f for f in r['fail'] if owned(f['kind'])]
         for f in r['fail']:
             if not owned(f['kind']):
@@ -217,7 +230,8 @@ def main(tier):
     fams = {}
     plan = [('reg', 'Xoff_reg_q.cfg' if quick else 'Xoff_reg_t.cfg', 8),
             ('misc', 'Xoff_misc_q.cfg' if quick else 'Xoff_misc_t.cfg', 4),
-            ('sharp', 'Xoff_sharp.cfg', 2)]
+            ('sharp', 'Xoff_sharp.cfg', 2),
+            ('corner', 'Xoff_corner_q.cfg' if quick else 'Xoff_corner_t.cfg', 2 if quick else 4)]
     from concurrent.futures import ThreadPoolExecutor
     def one(job):
         time.sleep(0.3 * plan.index(job))      # distinct TLC metadirs
@@ -229,12 +243,14 @@ def main(tier):
         B = {j[0]: [l.strip() for l in open('%s/%s.ndjson' % (reuse, j[0])) if l.strip()] for j in plan}
         chk.coverage['states'] = chk.coverage['transitions'] = 0
     else:
-        with ThreadPoolExecutor(max_workers=3) as ex:
+        with ThreadPoolExecutor(max_workers=4) as ex:
             B = dict(zip([j[0] for j in plan], ex.map(one, plan)))
     if os.environ.get('C12_SAVE_CASES'):
         for k, v in B.items():
             vf.write_ndjson('%s/%s.ndjson' % (os.environ['C12_SAVE_CASES'], k), v)
-    only = set(os.environ.get('C12_ONLY', 'off,sharp,misc').split(','))
+    only = set(os.environ.get('C12_ONLY', 'off,sharp,misc,corner').split(','))
+    cornercov = [json.loads(c) for c in B['corner'] if json.loads(c)['kind'] == 'cornercov']
+    corner = [c for c in B['corner'] if json.loads(c)['kind'] == 'corner']
 
     # heavy cases (Offset: 40 offsets each) first, spread evenly over the chunks
     reg = B['reg']
@@ -246,6 +262,35 @@ def main(tier):
         run_cases(chk, tally, B['sharp'], 'sharp', jobs=6, per_job=1)
     if 'misc' in only:
         run_cases(chk, tally, rest + B['misc'], 'misc', jobs=12, per_job=300)
+    if 'corner' in only:
+        # heavy cases (many vertices / segments) spread evenly over the chunks
+        order = sorted(range(len(corner)), key=lambda i: -len(json.loads(corner[i])['c']))
+        jobs = 12
+        spread = [corner[i] for j in range(jobs) for i in order[j::jobs]]
+        corner = spread
+        run_cases(chk, tally, corner, 'corner', jobs=jobs, per_job=4)
+    # what the corner family covered (measured on the cases that were run)
+    cc = [json.loads(c) for c in corner]
+    cstat = {'polygons': len(set(c['name'] for c in cc)), 'placements': len(cc),
+             'as_hole': sum(1 for c in cc if c['hole']), 'offsets': sum(len(c['vars']) for c in cc),
+             'round_offsets': sum(1 for c in cc for v in c['vars'] if v['jt'] == 'Round'),
+             'delta_positive': sum(1 for c in cc for v in c['vars'] if v['dn'] > 0),
+             'delta_negative': sum(1 for c in cc for v in c['vars'] if v['dn'] < 0),
+             'probes_judged': tally.probes,
+             'classes_checked_by_TLC': sorted(cornercov[0]['classes']) if cornercov else []}
+    byc, bys = {}, {}
+    for c in cc:
+        nr = sum(1 for v in c['vars'] if v['jt'] == 'Round')
+        for k in c['cls']:
+            byc[k] = byc.get(k, 0) + nr          # (corner of that class) x (Round offset) pairs
+        for v in c['vars']:
+            if v['jt'] == 'Round':
+                key = 'default(%d)' % v['n'] if v['seg'] < 3 else str(v['seg'])
+                bys[key] = bys.get(key, 0) + 1
+    cstat['corner_x_round_offset_by_class'] = byc
+    cstat['round_offsets_by_segments'] = bys
+    cstat['needle_tips_below_30_degrees'] = sorted(set(c['name'] for c in cc if 'convex_lt30' in c['cls']))
+    cstat['notches_below_30_degrees'] = sorted(set(c['name'] for c in cc if 'reflex_lt30' in c['cls']))
 
     def sample(cases, kind, n=1):
         xs = [json.loads(c) for c in cases if json.loads(c)['kind'] == kind]
@@ -257,6 +302,10 @@ def main(tier):
                 d = v['ds'][-1]
                 t += ' x (%s, miterLimit %.1f, %d segments) x delta -2..2; at delta=%d the statement demands %d pixels inside, leaves %d open' % (
                     v['jt'], v['ml10'] / 10.0, v['seg'], d['d'], len(d['in']), len(d['maybe']))
+            elif kind == 'corner':
+                v = c['vars'][0]
+                t += ' (corners: %s) x %d offsets, e.g. Round delta=%d/%d with %d segments: probes closer than %.4f*|delta| must be covered, farther than |delta| must not' % (
+                    ' '.join(c['cls']), len(c['vars']), v['dn'], v['dd'], v['n'], v['cos4'] / 1e4)
             elif kind == 'dec':
                 t += ' -> %d components' % c['n']
             elif kind in ('hull', 'hullx'):
@@ -266,20 +315,26 @@ def main(tier):
             out.append(t)
         return out
     samples = sample(off, 'off', 2) + sample(B['sharp'], 'sharp') + sample(rest, 'dec', 2) + sample(rest, 'hullx') + \
-        sample(B['misc'], 'hull', 2) + sample(B['misc'], 'simp', 2)
+        sample(B['misc'], 'hull', 2) + sample(B['misc'], 'simp', 2) + sample(corner, 'corner', 2)
 
     chk.coverage.update({
         'traces_validated_against_impl': tally.n,
         'evaluations': tally.evals, 'cases': tally.n, 'cases_by_kind': tally.kinds,
         'distinct_nontrivial': tally.nontrivial,
         'families': fams,
+        'corner_angle_family': cstat,
         'not_owned_failures_seen': tally.foreign,
         'rule': 'distinct cases printed by TLC from Xoff.tla. Regions: every lattice rectangle of the 4x4 grid, every pair of rectangles '
                 'of the 3x3 grid (overlapping, edge-touching, vertex-touching, apart), the 4x4 / 3x4 block minus every rectangle '
                 '(holes, notches, cuts into two pieces) [thorough: pairs on the 4x4 grid, a thinned set of two-minus-one triples]; each '
                 'region x {Miter limit 2 / 3.5, Round with 3 / 5 / 8 / 16 segments, Square, Bevel} x delta in -2..2 (one Offset call each), '
                 'and once for Decompose and for Hull of its rectangles (3 spellings); Decompose also on a 6x6 block minus a hole plus an island inside the hole (nested outlines). Sharp polygons: 6 convex polygons with 14..90 degree '
-                'corners x {Miter limit 2/3/5/10, Round, Square, Bevel} x delta. Hull: every set of <= 4 [thorough <= 6] points and every set '
+                'corners x {Miter limit 2/3/5/10, Round with 8 / 16 / 5 segments, Square, Bevel} x delta. Corner angles: 38 simple polygons (needles with '
+                'tips of 1..152 degrees incl. 29.7 / 29.9 / 30.3 / 30.5, spikes on a body, V-notches of 5.7..90 degrees cut into a body, saw teeth, stars, octagon, '
+                'hexagon, 176 / 184 degree corners, collinear vertices, L) x placements (rotation by a Pythagorean angle, mirror; solid / hole in a box) x '
+                'delta (growing the polygon by 1/2, 1, 2; shrinking it by 1/4, 1/2, 1 while something of the contour survives; signs swapped for the hole) x Round with {3,4,5,6,8,12,16,32,64,default} segments '
+                'and Miter 2 / 5, Square, Bevel, thinned to every 3rd [thorough: 2nd] variant per placement; 180 rays x 2 radii around every vertex + 5 points x 2 sides x 2 radii per '
+                'edge are judged by the rule of the statement (corner_angle_family.probes_judged). Hull: every set of <= 4 [thorough <= 6] points and every set '
                 'of >= 14 points of the 4x4 grid, each in 4 spellings (order reversed, points repeated, split over two contours). Simplify: '
                 'rectangles with every subset of redundant boundary lattice points, a box with near-collinear vertices displaced by '
                 '-2..1, staircases; each x tolerances 1/2, 1, 3/2, 2 [..3], each as one ring, two rings and as a hole. evaluations = '
@@ -287,6 +342,9 @@ def main(tier):
                 'Simplify must remove a vertex',
         'samples': samples})
     chk.assumptions += [
+        'corner-angle family: the distance of a probe to the input polygon is computed by the driver in long double (point-segment '
+        'distance, crossing-number inside test); probes in the band between |delta|*floor(10^4 cos(pi/n))/10^4*(1-10^-6) and |delta|*(1+10^-6) '
+        'are not judged; for delta of the default segment count the specification transcribes Quality::GetCircularSegments (checked against the API)',
         'lattice regime: regions are unions / differences of integer rectangles, delta is an integer in -2..2; membership is sampled at '
         'pixel centres (plus 4 interior points per pixel for monotonicity and for Miter exactness) by an independent crossing-number oracle',
         'cos(pi/n) enters as a table of rational lower bounds (Xoff.tla!CosLB); pixels between the bounds are not judged',
